@@ -75,7 +75,81 @@ contract(T + 'resolve_aliases',
          params={'self': 'Transformer', 'typenode': 'Node|Type?'},
          returns='Node|Type?', pure_keys=['typenode'], trusted=True,
          ensures={'not_alias': "not isinstance(result, ast.Alias) or isinstance(typenode, ast.Alias)",
-                  'identity': "implies(not isinstance(typenode, ast.Alias), result is typenode)"},
+                  'identity': "implies(not isinstance(typenode, ast.Alias), result is typenode)",
+                  'fundamental_has_ctype': "implies(isinstance(result, ast.Type) and isinstance(typenode, ast.Alias), result.ctype is not None)"},
          note='alias chains are not modelled')
 
 contract(MT + '_get_transfer_default_param', params={}, trusted=True) if False else None
+
+# ------------------------------------------------------------------------------------------------
+contract(MT + '_is_gi_subclass', params={'self': 'MainTransformer', 'typeval': 'Type', 'supercls_type': 'Type'},
+         returns='bool', pure_keys=['typeval.target_giname', 'supercls_type.target_giname'], trusted=True,
+         raises={'AssertionError': 'maybe', 'KeyError': 'maybe'},
+         note='class hierarchy walk (recursive); not modelled')
+
+
+def is_void_or_varargs(t):
+    return isinstance(t, ast.Varargs) or denotes(t, ('none',), ('void',))
+
+
+def spec_return_default(self, parent, node):
+    """documented default ownership of a return value; None = no default (annotation required)"""
+    t = node.type
+    if returns_untransferred(t):
+        return 'none'
+    if denotes_string(t):
+        return 'full'
+    if not t.target_giname:
+        return None
+    target = self._transformer.lookup_typenode(t)
+    if isinstance(target, ast.Alias):
+        if returns_untransferred(target.target):
+            return 'none'
+        if denotes_string(target.target):
+            return 'full'
+        return None
+    if isinstance(target, ast.Boxed):
+        return 'full'
+    if isinstance(target, (ast.Record, ast.Union)) and (target.gtype_name is not None or target.foreign):
+        return 'full'
+    if isinstance(target, (ast.Enum, ast.Bitfield)):
+        return 'none'
+    return 'CTOR'
+
+
+contract(MT + '_get_transfer_default_return',
+         params={'self': 'MainTransformer', 'parent': 'Node', 'node': 'Return'},
+         returns='str?', props=('C02',),
+         modifies=['LOGGER._warning_count'],
+         raises={'KeyError': 'True', 'AssertionError': 'True'},
+         ensures={
+             'C02.return.documented_default': "implies(spec_return_default(self, parent, node) != 'CTOR', "
+                                              "result == spec_return_default(self, parent, node))",
+             'C02.return.plain_object_no_default': "implies(spec_return_default(self, parent, node) == 'CTOR' and "
+                                                   "not (isinstance(parent, ast.Function) and parent.is_constructor), result is None)",
+             'C02.return.constructor_record_full': "implies(spec_return_default(self, parent, node) == 'CTOR' and "
+                                                   "isinstance(parent, ast.Function) and parent.is_constructor and "
+                                                   "isinstance(self._transformer.lookup_typenode(node.type), (ast.Record, ast.Union)), result == 'full')",
+             'C02.return.constructor_object': "implies(spec_return_default(self, parent, node) == 'CTOR' and "
+                                              "isinstance(parent, ast.Function) and parent.is_constructor and "
+                                              "isinstance(self._transformer.lookup_typenode(node.type), ast.Class), result in ('full', 'none', None))",
+         })
+
+contract(MT + '_get_transfer_default',
+         params={'self': 'MainTransformer', 'parent': 'Node', 'node': 'Parameter|Return|Field|Property'},
+         returns='str?', props=('C02',), requires=['node.type is not None'],
+         modifies=['LOGGER._warning_count'],
+         raises={'KeyError': 'True', 'AssertionError': 'True'},
+         ensures={
+             'C02.default.void_and_varargs_none': "implies(is_void_or_varargs(node.type), result == 'none')",
+             'C02.default.in_param_none': "implies(not is_void_or_varargs(node.type) and isinstance(node, ast.Parameter) "
+                                          "and node.direction not in ('out', 'inout'), result == 'none')",
+             'C02.default.out_param_full': "implies(not is_void_or_varargs(node.type) and isinstance(node, ast.Parameter) "
+                                           "and node.direction in ('out', 'inout') and not node.caller_allocates, result == 'full')",
+             'C02.default.out_caller_allocates_none': "implies(not is_void_or_varargs(node.type) and isinstance(node, ast.Parameter) "
+                                                      "and node.direction in ('out', 'inout') and node.caller_allocates, result == 'none')",
+             'C02.default.field_property_none': "implies(isinstance(node, (ast.Field, ast.Property)), result == 'none')",
+             'C02.default.return_documented': "implies(not is_void_or_varargs(node.type) and isinstance(node, ast.Return) and "
+                                              "spec_return_default(self, parent, node) != 'CTOR', "
+                                              "result == spec_return_default(self, parent, node))",
+         })
